@@ -17,6 +17,27 @@ CHECKS = {
         "Trusts numpy argsort and Python Fraction; filter is called with caller-guaranteed all-NaN failed rows; tolerance 1e-12, zeros/signs exact.",
         "DESIGN.md §3 C04",
     ),
+    "C05": (
+        "exploration",
+        "exhaustive enumeration (permutations x masks x windows) + Hypothesis; tie-robust validity predicate and exact reference weights",
+        "All permutations of distinct sort keys x all failure masks x all windows for n<=5 (quick) / n<=6 (thorough) for sort-objective and "
+        "sort-constraint with non-uniform configured weights; Hypothesis adds zero weights, ties, weighted multi-objective keys, invalid windows "
+        "(must be rejected before any evaluator call) and 2-3 filters mapped with -1 entries onto several objectives/constraints through "
+        "EnsembleEvaluator (reported weight rows must equal an independently computed selection). Complete inside the bounds, sampled beyond.",
+        "Trusts numpy sort; failed rows are all-NaN as the caller guarantees; keys closer than 1e-9 are ties (either order accepted); rows of "
+        "unmapped functions are decided by C01.",
+        "DESIGN.md §3 C05",
+    ),
+    "C17": (
+        "exploration",
+        "Hypothesis over sampler configurations; differential against identically seeded scipy.stats.qmc engines + structural predicates",
+        "Random configurations of all six built-in methods x shapes x masks x 1-3 samplers on disjoint variables x shared x seeds x 1-3 "
+        "consecutive calls, both by calling the plug-in directly and through EnsembleEvaluator; checks shape, exact zeros, shared/per-realization, "
+        "[-1,1] range, that the multiset of generated vectors equals the points of the reference QMC engine (continued across calls) and LHS "
+        "stratification per variable. Sampled, not exhaustive.",
+        "scipy.stats.qmc is the trusted reference; default sampler options; 'per realization' is checked as 'not all realizations identical'.",
+        "DESIGN.md §3 C17",
+    ),
 }
 
 NOT_YET = "check not built yet in this session (planned, see DESIGN.md §3)"
